@@ -359,6 +359,19 @@ def threshold_histories(tier, seed):
         ops.append({"op": "create_stream", "p": sp(["zz"]), "heavy": True})
         ops.append({"op": "reopen", "mode": "permissive", "heavy": True})
         out.append({"id": f"dirgrow_v{ver}", "ver": ver, "heavy": "marked", "ops": ops})
+        # (a2) the directory grows across sector boundaries AFTER a reopen (the reopened object holds every slot of the
+        #      loaded sectors, the creating one only the slots it has used so far)
+        ops = []
+        for n in pool[:5]:
+            ops.append({"op": "create_storage", "p": sp([n]), "heavy": False})
+        ops.append({"op": "reopen", "mode": "strict", "heavy": True})
+        per = 4 if ver == 3 else 32
+        more = [[pool[0], n] for n in pool[1:]] + [[pool[1], n] for n in pool[2:]] + [[pool[2], n] for n in pool[3:]]
+        for j, path in enumerate(more[: (2 * per + 6)]):
+            ops.append({"op": "create_stream" if j % 3 else "create_storage", "p": sp(path),
+                        "heavy": (6 + j + 1) % per in (0, 1, 2) or j == 2 * per + 5})
+        ops.append({"op": "reopen", "mode": "permissive", "heavy": True})
+        out.append({"id": f"dirgrow_reopened_v{ver}", "ver": ver, "heavy": "marked", "ops": ops})
         # (b) MiniFAT growth: V3 128 entries per MiniFAT sector, V4 1024
         f = Fill()
         ops = []
